@@ -46,9 +46,13 @@ def build(kinds, fasta=None):
     nf = 0
     for i, k in enumerate(kinds):
         if k == "D":
-            lines.append("##d%d sequence-region chr1 1 %d" % (i, 1000 + i) if i % 3 else "###" if i % 2 else "##dir %d" % i)
+            # directive shapes: ordinary, '###' (text '#'), bare '##' (empty text), text with blanks
+            lines.append(["##d%d sequence-region chr1 1 %d" % (i, 1000 + i), "###", "##dir %d" % i, "##", "## spaced  %d " % i,
+                          "##d%d sequence-region chr1 1 %d" % (i, 1000 + i)][(i + len(kinds)) % 6])
         elif k == "C":
-            lines.append("#comment %d\twith\ttabs ##not-a-directive" % i)
+            # comment shapes: ordinary, '#!' pragma-style, bare '#', '# ##'
+            lines.append(["#comment %d\twith\ttabs ##not-a-directive" % i, "#!genome-build GRCh%d" % i, "#", "# ## not a directive",
+                          "#\tx"][(i + len(kinds)) % 5])
         elif k == "B":
             lines.append("")
         else:
